@@ -235,6 +235,17 @@ def r1cs_models(store):
         p = I.deref(a[0]); c = p.fields[0].const and p.fields[1].const
         n = 506 if 'to_bits' in fn else 64
         return ok(Agg('alloc::vec::Vec', [[BoolVar(False, c) if c else models.Opaque('bit')] * n]))
+    def m_aff_enforce(I, fr, fn, a):
+        # AffineVar (coordinate-wise) equality enforcement of arkworks: equal means x1 = x2 and y1 = y2
+        p, q = I.deref(a[0]) if isinstance(a[0], Ref) else a[0], I.deref(a[1]) if isinstance(a[1], Ref) else a[1]
+        c = BVv(I, a[2]) if len(a) > 2 else BoolVar(True, True)
+        if shp(I): return ok(UNIT)
+        if not c.b: return ok(UNIT)
+        if 'not_equal' in fn:
+            if fe_eq(I, p.fields[0].fe, q.fields[0].fe) and fe_eq(I, p.fields[1].fe, q.fields[1].fe): st(I).false('AffineVar::conditional_enforce_not_equal on coordinate-wise equal points')
+        else:
+            st(I).eq(p.fields[0].fe, q.fields[0].fe, 'AffineVar::conditional_enforce_equal (x)'); st(I).eq(p.fields[1].fe, q.fields[1].fe, 'AffineVar::conditional_enforce_equal (y)')
+        return ok(UNIT)
     def m_noop_ok(I, fr, fn, a): return ok(UNIT)
     def m_refcell_new(I, fr, fn, a): return Agg('RefCell', [a[0]])
     def m_refcell_borrow(I, fr, fn, a):
@@ -284,6 +295,7 @@ def r1cs_models(store):
         (r'^<ark_r1cs_std::groups::curves::twisted_edwards::AffineVar<.*> as ark_r1cs_std::(ToBitsGadget|ToBytesGadget)<.*>>::(to_bits_le|to_bytes)$', m_aff_to_bits),
         # trait-default allocation entry points of the crate's own variable types: new_input / new_witness / new_constant call new_variable
         (r'^<ark_curve::r1cs::\w+::ElementVar as ark_r1cs_std::alloc::AllocVar<.*>>::(new_input|new_witness)::<', lambda I, fr, fn, a: I.call(fr, re.sub(r'>::(new_input|new_witness)::<', '>::new_variable::<', fn), [a[0], a[1], Enum('ark_r1cs_std::alloc::AllocationMode', 'Input' if '>::new_input::<' in fn else 'Witness', [])])),
+        (r'^<ark_r1cs_std::groups::curves::twisted_edwards::AffineVar<.*> as ark_r1cs_std::eq::EqGadget<.*>>::conditional_enforce_(not_)?equal$', m_aff_enforce),
         (r'^core::cell::RefCell::<.*>::new$', m_refcell_new), (r'^core::cell::RefCell::<.*>::(borrow|borrow_mut|get_mut|as_ptr)$', m_refcell_borrow),
         (r'^core::cell::RefCell::<.*>::into_inner$', lambda I, fr, fn, a: a[0].fields[0]),
         (r'^core::cell::RefCell::<.*>::replace$', lambda I, fr, fn, a: (lambda old: (I.store(Ref(a[0].frame, a[0].local, list(a[0].path) + [0]), a[1]), old)[1])(mirsym.cp(I.deref(Ref(a[0].frame, a[0].local, list(a[0].path) + [0]))))),
@@ -293,6 +305,7 @@ def r1cs_models(store):
         (r'^ark_ec::twisted_edwards::Affine::<.*>::new$', m_te_affine_new),
         (r'^<.* as core::convert::Into<ark_relations::r1cs::Namespace<.*>>>::into$', lambda I, fr, fn, a: CSRef()), (r'^ark_relations::r1cs::Namespace::<.*>::(cs|new)$', lambda I, fr, fn, a: CSRef()),
         (r'^<ark_relations::r1cs::ConstraintSystemRef<.*> as core::clone::Clone>::clone$', lambda I, fr, fn, a: CSRef()),
+        (r'^ark_relations::r1cs::ConstraintSystemRef::<.*>::is_in_setup_mode$', lambda I, fr, fn, a: store.mode == 'setup'),
         (r'^tracing::__macro_support::__is_enabled$', lambda I, fr, fn, a: False), (r'^tracing_core::subscriber::Interest::is_never$', lambda I, fr, fn, a: True),
         (r'^<tracing_core::metadata::Level as core::cmp::PartialOrd<.*>>::le$', lambda I, fr, fn, a: False),
         (r'^tracing(_core)?::', lambda I, fr, fn, a: models.Opaque('tracing')), (r'^<tracing(_core)?::', lambda I, fr, fn, a: models.Opaque('tracing')),
@@ -320,7 +333,7 @@ def r1cs_models(store):
         return f
     # every call into ark-r1cs-std is one event of the shape trace (function, operand kinds, values of constants): the sequence of
     # events determines the variables and constraints arkworks emits, provided its own gadgets are value-oblivious (trusted)
-    fns = [((pat, traced(pat, mdl)) if ('ark_r1cs_std' in pat and 'R1CSVar' not in pat) else (pat, mdl)) for pat, mdl in fns]
+    fns = [((pat, traced(pat, mdl)) if ('ark_r1cs_std' in pat and 'R1CSVar' not in pat and not pat.startswith('^<ark_curve::r1cs::')) else (pat, mdl)) for pat, mdl in fns]
     from . import curve
     M = curve.curve_models('ark', extra=fns)
     M['consts'] = [(r'^ark_r1cs_std::prelude::Boolean::<.*>::TRUE$', lambda I, fr, path: BoolVar(True, True)), (r'^ark_r1cs_std::prelude::Boolean::<.*>::FALSE$', lambda I, fr, path: BoolVar(False, True))] + M.get('consts', [])
